@@ -64,7 +64,9 @@ func indexEv(keys []string, offs []int64, mode string, block int, qs []string) E
 				e["pan"] = fmt.Sprint(r)
 			}
 		}()
-		si, err := index.NewSlimIndex(items, br)
+		var si *index.SlimIndex
+		var err error
+		watched(func() { si, err = index.NewSlimIndex(items, br) })
 		if err != nil {
 			e["err"] = errClass(err)
 			return
@@ -79,9 +81,9 @@ func indexEv(keys []string, offs []int64, mode string, block int, qs []string) E
 					}
 				}()
 				if mode == "get" {
-					rec, ok = si.Get(q)
+					watched(func() { rec, ok = si.Get(q) })
 				} else {
-					rec, ok = si.RangeGet(q)
+					watched(func() { rec, ok = si.RangeGet(q) })
 				}
 				rn := 0
 				if ok {
